@@ -361,6 +361,7 @@ class ShortTimeFourierTransformFrameComputer(LinearFilterBankFrameComputer):
         super(ShortTimeFourierTransformFrameComputer, self).__init__(
             bank, include_energy=include_energy
         )
+        _verif.emit_outer("stft", a="init", obj=id(self))
 
     @property
     def frame_style(self) -> str:
@@ -819,6 +820,7 @@ class ShortIntegrationFrameComputer(LinearFilterBankFrameComputer):
         super(ShortIntegrationFrameComputer, self).__init__(
             bank, include_energy=include_energy
         )
+        _verif.emit_outer("si", a="init", obj=id(self))
 
     @property
     def frame_style(self) -> str:
